@@ -6,6 +6,7 @@ package main
 import (
 	"fmt"
 	"go/types"
+	"strconv"
 	"strings"
 
 	"golang.org/x/tools/go/ssa"
@@ -43,6 +44,39 @@ func init() {
 		"github.com/mgutz/ansi.ColorCode": func(e *Exec, fn *ssa.Function, a []Value) Value {
 			return e.constString("\x1b[" + e.goString(a[0]) + "m")
 		},
+
+		"strconv.FormatInt": func(e *Exec, fn *ssa.Function, a []Value) Value {
+			x, b := a[0].(*Term), a[1].(*Term)
+			if x.IsConst() && b.IsConst() {
+				return e.constString(strconv.FormatInt(x.SVal(), int(b.SVal())))
+			}
+			if !b.IsConst() || b.SVal() != 10 {
+				panic(unsupported{"strconv.FormatInt with a base other than 10"})
+			}
+			return e.mkOpaque("dec-s", x)
+		},
+		"strconv.FormatUint": func(e *Exec, fn *ssa.Function, a []Value) Value {
+			x, b := a[0].(*Term), a[1].(*Term)
+			if x.IsConst() && b.IsConst() {
+				return e.constString(strconv.FormatUint(x.Val, int(b.SVal())))
+			}
+			if !b.IsConst() || b.SVal() != 10 {
+				panic(unsupported{"strconv.FormatUint with a base other than 10"})
+			}
+			return e.mkOpaque("dec-u", x)
+		},
+		"strconv.FormatFloat": func(e *Exec, fn *ssa.Function, a []Value) Value {
+			x := a[0].(*Term)
+			bits := a[3].(*Term)
+			if !bits.IsConst() {
+				panic(unsupported{"strconv.FormatFloat with symbolic bit size"})
+			}
+			return e.mkOpaque(fmt.Sprintf("float%d", bits.SVal()), x)
+		},
+		"math.Float32frombits": func(e *Exec, fn *ssa.Function, a []Value) Value { return a[0] },
+		"math.Float64frombits": func(e *Exec, fn *ssa.Function, a []Value) Value { return a[0] },
+		"math.Float32bits":     func(e *Exec, fn *ssa.Function, a []Value) Value { return a[0] },
+		"math.Float64bits":     func(e *Exec, fn *ssa.Function, a []Value) Value { return a[0] },
 
 		"bytes.Equal":           func(e *Exec, fn *ssa.Function, a []Value) Value { return e.winEq(e.win(a[0]), e.win(a[1])) },
 		"bytes.HasPrefix":       func(e *Exec, fn *ssa.Function, a []Value) Value { return e.hasPrefix(e.win(a[0]), e.win(a[1])) },
@@ -310,6 +344,25 @@ func inTrimSuffix(e *Exec, fn *ssa.Function, a []Value) Value {
 
 func inJoin(e *Exec, fn *ssa.Function, a []Value) Value {
 	parts := a[0].(*SliceV)
+	{
+		po, pn := e.sliceWindow(parts)
+		anyOpq := false
+		for i := 0; i < pn; i++ {
+			if sv, ok := parts.Arr.Elems[po+i].(*StringV); ok && sv.Tok != nil {
+				anyOpq = true
+			}
+		}
+		if anyOpq {
+			var ps []interface{}
+			for i := 0; i < pn; i++ {
+				if i > 0 {
+					ps = append(ps, a[1].(*StringV))
+				}
+				ps = append(ps, parts.Arr.Elems[po+i].(*StringV))
+			}
+			return e.concatOpaque(ps)
+		}
+	}
 	sep := e.strBytes(a[1].(*StringV))
 	off, n := e.sliceWindow(parts)
 	var out []*Term
@@ -603,12 +656,147 @@ func (e *Exec) stringOf(v Value) (*StringV, bool) {
 // sprintfToken: formatting of symbolic arguments is an uninterpreted token
 // (equal tokens iff equal format and equal argument terms).
 func (e *Exec) sprintfToken(format string, sl *SliceV, off, n int) Value {
-	var ts []*Term
-	for i := 0; i < n; i++ {
-		ts = append(ts, e.tokenOf(sl.Arr.Elems[off+i]))
+	// normal form: a concatenation of literal pieces and opaque atoms, so that
+	// the same text built through different format strings compares equal
+	var parts []interface{}
+	ai := 0
+	lit := ""
+	flush := func() {
+		if lit != "" {
+			parts = append(parts, e.constString(lit))
+			lit = ""
+		}
 	}
-	name := "sprintf_" + tokName(format)
-	return &StringV{Tok: e.ctx.UF(name, 64, ts...), Off: e.ctx.Int(0), Len: e.ctx.Int(0)}
+	simple := true
+	for i := 0; i < len(format) && simple; i++ {
+		ch := format[i]
+		if ch != '%' {
+			lit += string(ch)
+			continue
+		}
+		i++
+		if i >= len(format) {
+			simple = false
+			break
+		}
+		switch format[i] {
+		case '%':
+			lit += "%"
+		case 's', 'v', 'd', 'x':
+			if ai >= n {
+				simple = false
+				break
+			}
+			arg := sl.Arr.Elems[off+ai]
+			ai++
+			flush()
+			p := e.opaquePart(arg)
+			if t, ok := p.(*Term); ok {
+				signed := true
+				if iv, isI := arg.(*IfaceV); isI && iv != nil {
+					signed = isSigned(iv.Typ)
+				}
+				switch {
+				case format[i] == 'x':
+					p = e.mkOpaque("hex", e.ctx.Zext(t, 64))
+				case signed:
+					p = e.mkOpaque("dec-s", e.ctx.Sext(t, 64))
+				default:
+					p = e.mkOpaque("dec-u", e.ctx.Zext(t, 64))
+				}
+			}
+			parts = append(parts, p)
+		default:
+			simple = false
+		}
+	}
+	if !simple || ai != n {
+		var ps []interface{}
+		for i := 0; i < n; i++ {
+			ps = append(ps, e.opaquePart(sl.Arr.Elems[off+i]))
+		}
+		return e.mkOpaque("sprintf:"+format, ps...)
+	}
+	flush()
+	return e.concatOpaque(parts)
+}
+
+// concatOpaque flattens nested concatenations and merges adjacent literals.
+func (e *Exec) concatOpaque(parts []interface{}) *StringV {
+	var flat []interface{}
+	var add func(p interface{})
+	add = func(p interface{}) {
+		sv, ok := p.(*StringV)
+		if !ok {
+			flat = append(flat, p)
+			return
+		}
+		if sv.Opq != nil && sv.Opq.Kind == "concat" {
+			for _, q := range sv.Opq.Parts {
+				add(q)
+			}
+			return
+		}
+		if s, ok := e.concreteString(sv); ok {
+			if s == "" {
+				return
+			}
+			if len(flat) > 0 {
+				if prev, ok := flat[len(flat)-1].(*StringV); ok {
+					if ps, ok := e.concreteString(prev); ok {
+						flat[len(flat)-1] = e.constString(ps + s)
+						return
+					}
+				}
+			}
+		}
+		flat = append(flat, sv)
+	}
+	for _, p := range parts {
+		add(p)
+	}
+	if len(flat) == 0 {
+		return e.constString("")
+	}
+	if len(flat) == 1 {
+		if sv, ok := flat[0].(*StringV); ok {
+			return sv
+		}
+	}
+	return e.mkOpaque("concat", flat...)
+}
+
+// opaquePart turns a formatting argument into an identity-carrying part.
+func (e *Exec) opaquePart(v Value) interface{} {
+	switch x := v.(type) {
+	case *IfaceV:
+		if x == nil {
+			return e.ctx.Int(0)
+		}
+		if _, isStr := x.Val.(*StringV); !isStr {
+			if sv, ok := e.stringOf(x); ok {
+				return sv
+			}
+			// values with a String() method rendering to an opaque string
+			ms := e.eng.prog.MethodSets.MethodSet(x.Typ)
+			for i := 0; i < ms.Len(); i++ {
+				if ms.At(i).Obj().Name() == "String" {
+					if r, ok := e.callFunc(e.eng.prog.MethodValue(ms.At(i)), []Value{x.Val}, nil).(*StringV); ok {
+						return r
+					}
+				}
+			}
+		}
+		return e.opaquePart(x.Val)
+	case *Term:
+		if x.W == 0 {
+			return e.ctx.Ite(x, e.ctx.Int(1), e.ctx.Int(0))
+		}
+		return x
+	case *StringV:
+		return x
+	}
+	panic(unsupported{fmt.Sprintf("opaque part of %T", v)})
 }
 
 func tokName(s string) string {
